@@ -259,26 +259,27 @@ class FusionEngineDecoder:
             # Get the class for the received message type and deserialize the message payload. If cls is not None, it is
             # a child of @ref MessagePayload that maps to the received @ref MessageType.
             cls = message_type_to_class.get(self._header.message_type, None)
+            contents = None
             if cls is not None:
                 contents = cls()
                 try:
                     contents.unpack(buffer=self._buffer, offset=MessageHeader.calcsize())
+                    _logger.debug('Decoded FusionEngine message %s.', repr(contents))
                 except Exception as e:
                     # unpack() may fail if the payload length in the header differs from the length expected by the
-                    # class, the payload contains an illegal value, etc.
+                    # class, the payload contains an illegal value, etc. The message itself is valid (sync, length and
+                    # CRC all check out), so it is still returned, with the uninterpreted payload bytes.
                     _logger.error('Error deserializing message %s payload: %s', self._header.get_type_string(), e)
-                    self._header = None
-                    self._msg_len = 0
-                    self._buffer.pop(0)
-                    self._bytes_processed += 1
-                    continue
-                _logger.debug('Decoded FusionEngine message %s.', repr(contents))
-            # If cls is None, we don't have a class for the message type. Return a copy of the payload bytes.
+                    contents = None
+            # If cls is None, we don't have a class for the message type.
             else:
-                contents = bytes(self._buffer[MessageHeader.calcsize():self._msg_len])
                 print_func = _logger.warning if self._warn_on_unrecognized else _logger.debug
                 print_func('Decoded unknown FusionEngine message. [type=%d, payload_size=%d B]',
                            self._header.message_type, self._header.payload_size_bytes)
+
+            # If the payload could not be interpreted, return a copy of the payload bytes.
+            if contents is None:
+                contents = bytes(self._buffer[MessageHeader.calcsize():self._msg_len])
 
             # Store the result.
             result = [self._header, contents]
